@@ -252,8 +252,7 @@ theorem gtAfterHour_canon_frac (m s : Nat) (hm : m < 100) (hs : s < 100) (ds : L
 theorem GT2timeFrac_canon_frac (lo : Int) (g : Bool) (Y M D h m s : Nat) (hv : ValidDateTime Y M D h m s)
     (ds : List Nat) (hds : ∀ c ∈ ds, 48 ≤ c ∧ c ≤ 57) (hlen : ds.length ≤ 9) :
     GT2timeFrac lo (gtDigits14 Y M D h m s ++ 0x2e :: ds ++ [0x5a]) g =
-      if epochSeconds Y M D h m s = -1 then .einval
-      else .ok (epochSeconds Y M D h m s) (digitsVal ds : Nat) ds.length
+      .ok (epochSeconds Y M D h m s) (digitsVal ds : Nat) ds.length
         (if g then gmtime (epochSeconds Y M D h m s) else localtime (epochSeconds Y M D h m s) lo) := by
   obtain ⟨hY, hM1, hM2, hD1, hD2, hh, hm, hs⟩ := hv
   have hD31 : D ≤ 31 := by
@@ -368,11 +367,11 @@ theorem fracCanon_denotes (n d : Nat) (hn0 : 0 < n) (hn : n < 10 ^ d) :
     rw [hj]; exact List.mem_append_left _ hc
   · rw [show d - (stripZeros (fracDigits d n)).length = j by omega]; exact hval
 
-/-- **fraction round trip**: for t in the years 0000..9999 other than -1 and a fraction n/10^d (1 ≤ d ≤ 9,
-    0 < n < 10^d), `asn_GT2time_frac` applied to the forced-GMT text of `asn_time2GT_frac` returns t and a
-    fraction fv/10^fd equal to n/10^d with 1 ≤ fd ≤ d (trailing zeros are gone) -/
-theorem GT2timeFrac_time2GTfrac_partial (t off lo : Int) (g : Bool) (n d : Nat) (h0 : t0000 ≤ t) (h1 : t < t10000)
-    (hne : t ≠ -1) (hd9 : d ≤ 9) (hn0 : 0 < n) (hn : n < 10 ^ d) :
+/-- **fraction round trip**: for t in the years 0000..9999 (the instant -1 included) and a fraction n/10^d
+    (1 ≤ d ≤ 9, 0 < n < 10^d), `asn_GT2time_frac` applied to the forced-GMT text of `asn_time2GT_frac` returns t
+    and a fraction fv/10^fd equal to n/10^d with 1 ≤ fd ≤ d (trailing zeros are gone) -/
+theorem GT2timeFrac_time2GTfrac (t off lo : Int) (g : Bool) (n d : Nat) (h0 : t0000 ≤ t) (h1 : t < t10000)
+    (hd9 : d ≤ 9) (hn0 : 0 < n) (hn : n < 10 ^ d) :
     ∃ (txt : Bytes) (fv fd : Nat), time2GTfrac (localtime t off) n d true = some txt ∧
       GT2timeFrac lo txt g = .ok t fv fd (if g then gmtime t else localtime t lo) ∧
       1 ≤ fd ∧ fd ≤ d ∧ fv * 10 ^ (d - fd) = n := by
@@ -381,7 +380,7 @@ theorem GT2timeFrac_time2GTfrac_partial (t off lo : Int) (g : Bool) (n d : Nat) 
   rw [fracText_eq_fracCanon n d hd9 hn, e1] at ht
   refine ⟨_, digitsVal ds, ds.length, ht, ?_, ?_, e4, e5⟩
   · have := GT2timeFrac_canon_frac lo g Y M D h m s hv ds e2 (by omega)
-    rw [he, if_neg hne] at this
+    rw [he] at this
     rw [← this]
   · cases ds with
     | nil => exact absurd rfl e3
